@@ -274,9 +274,44 @@ func (in *Interp) bytesToStr(v Value) *Term {
 		for _, e := range x {
 			parts = append(parts, in.byteToStr(in.force(e).(*Term)))
 		}
-		return in.tb.Concat(parts...)
+		return in.tb.Concat(in.collapseAtRuns(parts)...)
 	}
 	panic(in.abort("bytesToStr: %T", v))
+}
+
+// collapseAtRuns replaces runs (str.at X i), (str.at X i+1), ... by one (str.substr X i k): the two are
+// equal for every X (both clip at the end of X), and the solver sees one term instead of k.
+func (in *Interp) collapseAtRuns(parts []*Term) []*Term {
+	isAt := func(t *Term) (*Term, int64, bool) {
+		if t.Op == "str.at" && t.Args[1].IsConst() {
+			return t.Args[0], int64(t.Args[1].U), true
+		}
+		return nil, 0, false
+	}
+	var out []*Term
+	for i := 0; i < len(parts); {
+		x, k0, ok := isAt(parts[i])
+		if !ok {
+			out = append(out, parts[i])
+			i++
+			continue
+		}
+		j := i + 1
+		for j < len(parts) {
+			y, k, ok := isAt(parts[j])
+			if !ok || y != x || k != k0+int64(j-i) {
+				break
+			}
+			j++
+		}
+		if j-i >= 2 {
+			out = append(out, in.tb.StrOp("str.substr", SortStr, x, in.tb.Int(k0), in.tb.Int(int64(j-i))))
+		} else {
+			out = append(out, parts[i])
+		}
+		i = j
+	}
+	return out
 }
 
 // strToBytes converts a string term to a []byte value.
